@@ -48,8 +48,8 @@ func init() {
 		Rule:  "same enumeration as C01; oracle: returned multiset ⊆ stored, every returned row satisfies bloom∧regex by the reference, equality without prefilter, whole-block union rule with prefilter",
 	}
 	modes["C23"] = ModeSpec{
-		Cases: func(t string) []Case { return sweepCases(t, sweepOpts{c23: true}) },
-		Rule:  "every query of the C01 enumeration (all completing without error); per-block accounting rules on Results.Stats against the blocks read back through the public helpers",
+		Cases: func(t string) []Case { return append(sweepCases(t, sweepOpts{c23: true}), c23FaultCases(t)...) },
+		Rule:  "every query of the C01 enumeration (all completing without error); per-block accounting rules on Results.Stats against the blocks read back through the public helpers; plus, for 10 queries x {external-writer (absent/partial/reordered/padded filter sections), partitioned flush, uncompressed merged} layouts x MaxQueryConcurrency {1,4}, a failure injected at every DataStore call position the query makes (k-th OpenFile/Seek/Read of each file, once or from then on): at-most-once, all-or-none per file, processed sources of returned rows and zero counts for skipped blocks are asserted for every such run; non-trivial fault run = the injected failure was reached",
 	}
 	modes["C24"] = ModeSpec{
 		Cases: func(t string) []Case { return sweepCases(t, sweepOpts{c24: true}) },
